@@ -190,3 +190,21 @@ Print Assumptions c18_malformed_missing_probability. Print Assumptions c18_malfo
 Print Assumptions c18_malformed_probability_value. Print Assumptions c18_malformed_extra_key. Print Assumptions c18_malformed_start.
 Print Assumptions c18_malformed_body. Print Assumptions c18_malformed_packed. Print Assumptions c18_generate_cases.
 Print Assumptions c18_attr_names_partial. Print Assumptions c18_attr_names_counterexample.
+
+(* ---- re-exported by tools/reexport.py: statements copied from `Check`, closed by `exact` ---- *)
+From QV Require Import ErrorModels.FileSession.
+Theorem c18_session_noninterference : forall (R : Type) (rpull : R -> res obj * R) (clash : list str) (os : list op) (w : world R) (j : nat) (s : mstate R), nth_error (models w) j = Some s -> outs_of j (fst (wrun R rpull clash w os)) = run_calls R rpull clash s (calls_of j os).
+Proof. exact session_noninterference. Qed.
+Theorem c18_kept_cell_stable : forall (R : Type) (rpull : R -> res obj * R) (clash : list str) (os : list op) (w : world R) (k : nat), k < length (heap w) -> existsb (scribbles k) os = false -> nth_error (heap (snd (wrun R rpull clash w os))) k = nth_error (heap w) k.
+Proof. exact kept_cell_stable. Qed.
+Theorem c18_served_cell : forall (R : Type) (rpull : R -> res obj * R) (clash : list str) (w : world R) (j : nat) (c : call) (e : bsf) (w' : world R), wstep R rpull clash w (Call j c) = (Some (j, OBits e), w') -> nth_error (heap w') (length (heap w)) = Some e /\ length (heap w') = S (length (heap w)).
+Proof. exact served_cell. Qed.
+Theorem c18_scribbled_cell_stable : forall (R : Type) (rpull : R -> res obj * R) (clash : list str) (w : world R) (k : nat) (v : bsf) (os : list op), k < length (heap w) -> existsb (scribbles k) os = false -> nth_error (heap (snd (wrun R rpull clash w (Scribble k v :: os)))) k = Some v.
+Proof. exact scribbled_cell_stable. Qed.
+Theorem c18_session_scenario : forall (clash : list str) (specs : list (option (list line) * start_arg)) (ss : list bstate) (hp : list bsf) (os : list op) (j : nat) (f : option (list line)) (sa : start_arg), ok_states (opened clash specs) = Some ss -> nth_error specs j = Some (f, sa) -> outs_of j (fst (wrun reader pull clash {| models := ss; heap := hp |} os)) = snd (scenario f sa clash (calls_of j os)).
+Proof. exact session_scenario. Qed.
+Print Assumptions c18_session_noninterference.
+Print Assumptions c18_kept_cell_stable.
+Print Assumptions c18_served_cell.
+Print Assumptions c18_scribbled_cell_stable.
+Print Assumptions c18_session_scenario.
